@@ -27,6 +27,9 @@ type gen struct {
 	st   *cv.Stats
 	seen map[string]bool
 	cur  string
+	// beyondLimit: the events being generated have more indexed arguments than the EVM has topics; no
+	// expectation is attached and a refusal is not compared
+	beyondLimit bool
 }
 
 func (g *gen) add(s *Spec) {
@@ -336,9 +339,10 @@ func (g *gen) eventVariants(r *cv.Rand, e *Entry, malformed bool, full bool) {
 		an = "anonymous"
 	}
 	good := &Spec{Kind: "event", Class: fmt.Sprintf("valid:%s:%d-of-%d-indexed", an, nIdx, len(e.Inputs)), Entry: e, Topics: topics, Data: data}
-	if exact {
+	if exact && !g.beyondLimit {
 		good.Expect, good.ExpVals = "values", exp
 	}
+	good.Lenient = g.beyondLimit
 	g.add(good)
 	if !malformed {
 		return
@@ -508,6 +512,7 @@ func (g *gen) events(r *cv.Rand, nEntries int, thorough bool) {
 		g.eventVariants(r, e, i%2 == 0, thorough)
 	}
 	// beyond the topic limit (no expectation: outside the property's quantifier, model must agree)
+	g.beyondLimit = true
 	for i := 0; i < 4; i++ {
 		e := genEntry(r, "event", 6, 1, false, false)
 		for j := range e.Inputs {
@@ -515,6 +520,7 @@ func (g *gen) events(r *cv.Rand, nEntries int, thorough bool) {
 		}
 		g.eventVariants(r, e, false, false)
 	}
+	g.beyondLimit = false
 	// an entry whose type does not validate
 	g.add(&Spec{Kind: "event", Class: "invalid-type", Entry: &Entry{Type: "event", Name: "f", Inputs: []Param{{T: &T{K: kInvalid, Bad: "wrong", Name: "z"}}}}, Topics: []hexb{}, Expect: "refuse"})
 }
